@@ -385,6 +385,12 @@ func init() {
 				g.emit("sock", kind, "o:1;w:1:"+hx("a\nb")+";x:1;z")
 				g.emit("sock", kind, "o:1;w:1:"+hx("a\r\nfrag")+";z")
 				g.emit("sock", kind, "o:1;x:1;z")
+				// a CR and its LF that arrive in different reads, a CR that is followed by another CR, a
+				// lone LF as the first byte of a read
+				if kind != "unixgram" {
+					g.emit("sock", kind, "o:1;w:1:"+hx("alpha\r")+";w:1:"+hx("\nbravo\r")+";w:1:"+hx("\n")+";w:1:"+hx("c\r\r")+";w:1:"+hx("\ndelta")+";w:1:"+hx("\r\n\nend\n")+";x:1;z")
+					g.emit("sock", kind, "o:1;w:1:"+hx("one\r")+";w:1:"+hx("\n")+";x:1;z")
+				}
 				// an empty write (for a datagram socket: an empty datagram) is not the end of anything
 				g.emit("sock", kind, "o:1;w:1:"+hx("a\n")+";w:1:-;w:1:"+hx("b\n")+";w:1:-;w:1:-;w:1:"+hx("c\n")+";x:1;z")
 				if kind == "unix" || kind == "tcp" {
